@@ -113,7 +113,7 @@ def _names_in(e):
     return {x.id for x in ast.walk(e) if isinstance(x, ast.Name)} if e is not None else set()
 
 
-def check(run, P):
+def _check_main(run, P):
     run.rule("C07.fresh", "ids of constructed statements come from stmt_id_gen, "
              "introduced variables from var_name_gen; both generators are seeded "
              "from all statements of the phase AST", minimum=12)
@@ -862,3 +862,9 @@ def _name_fields(P, K):
     if K.name == "Assign":
         out.add("loops[*][0]")
     return out
+
+
+def check(run, P):
+    _check_main(run, P)
+    from . import generic
+    generic.lints(run, P, "C07")
